@@ -36,7 +36,7 @@ CFG = dict(
              dict(name="c16more", n=dict(quick=120, thorough=5000))],
     trusted=T_COMMON + [
         "Model/RenderPrims.lean is a hand transcription of the arithmetic of Sphere.Hit/BoundingBox, XYRectangle.Hit/BoundingBox, rayIntersectsTri, "
-        "Triangle.Hit, Mesh.Hit/Hit2 (rendering/*.go); tied by bit-exact correspondence (stream c16prims: flag, Distance, Point, box)",
+        "Triangle.Hit, Mesh.Hit/Hit2, Tree.Hit (rendering/*.go; Model/RenderTree.lean); tied by bit-exact correspondence (stream c16prims: flag, Distance, Point, box)",
         "Model/Tree.lean is a hand transcription of trees/octree.go, rendering/bvh.go, rendering/hit.go and of "
         "AABB.IntersectsRayInRange (pointer-based helper); tied by bit-exact correspondence of bounds, visit order of every "
         "query result and closest point on points / line strips / boxes (Float run of the same definitions)",
@@ -62,7 +62,8 @@ CFG = dict(
         "the distance from ray.At(min) with max); (c) animated spheres outside the hypothesis (non-linear animation, ray time outside "
         "[start,end]: the source's own TODO in Sphere.BoundingBox), negative radius, rays whose direction is not of unit length (NewTemporalRay "
         "normalises; a zero vector gives NaN), rectangle rays with direction.z = 0 (Go: +-Inf -> miss; origin in the plane: NaN distance "
-        "reported as a hit); (d) a multi-object NewBVHTree still has no model-vs-impl line (random axis), one-object nodes do (c16.prim.*); "
+        "reported as a hit); (d) a multi-object NewBVHTree still has no model-vs-impl line (random axis), one-object nodes do (c16.prim.*), and so does "
+        "rendering.Tree (NewBVH, deterministic: c16.tree.hit; theorem tree_built_hit_eq_hitlist); "
         "(e) the Normal / UV / Material / FrontFace fields of the HitRecord are not modelled (Distance and Point are)",
         "the slab test stays hand-modelled: go/xlate rejects AABB.intersectsRayInRangeComponent with 'store through pointer' (aabb.go:220); "
         "no spec-level workaround exists (needs a translator feature: pointer out-parameters threaded as a result tuple)",
@@ -102,11 +103,11 @@ CFG = dict(
              "ray.At(Distance) lies inside BoundingBox(), Distance in range, first hit reported iff within range — so BVHNode.Hit = HitList.Hit on every "
              "covering tree and on the tree NewBVHTree builds from any list of them, for every non-empty range (unit-direction ray; minDistance = 0 with "
              "triangles), no primitive hypothesis; the point range [m,m] is proved to differ. rendering.Mesh.Hit and Hit2 (octree of triangles) = the "
-             "exhaustive triangle loop on the built octree. Tie: AABB/plane code regenerated by the "
+             "exhaustive triangle loop on the built octree; rendering.Tree.Hit (octree over the items' boxes) = HitList.Hit on the built octree. Tie: AABB/plane code regenerated by the "
              "translator; the Lean model run at Float on the same bits reproduces the real octree's root bounds, visit order of every query answer, "
              "closest element/distance/point and the slab test exactly (points, line strips, boxes, triangles; depths 0–6 and automatic; queries "
              "inside, outside, exactly on element vertices; axis-parallel rays incl. origins exactly on the widened face, both signs of zero). "
-             "Primitives and Mesh: Hit / BoundingBox of spheres, rectangles, one-triangle BVH nodes, one-object NewBVHTree nodes and Mesh.Hit / Hit2 "
+             "Primitives and Mesh: Hit / BoundingBox of spheres, rectangles, one-triangle BVH nodes, one-object NewBVHTree nodes, Mesh.Hit / Hit2 and Tree.Hit "
              "reproduced bit-for-bit by Model/RenderPrims.lean (stream c16prims). Stream c16more: radius queries with the radius exactly an element's "
              "distance / its float neighbours / negative / underflowing / 0; animated spheres in BVHs built over non-trivial time intervals with rays at random "
              "times; BoundingBox asked repeatedly with different intervals on the same object (history class). Oracles: the real octree's answers against an exhaustive scan done by the Go harness through the same trees.Element interfaces "
